@@ -112,9 +112,23 @@ def replay(obname, params, values):
     return out, res.obs
 
 
+class _Budget(BaseException):
+    pass
+
+
+def _on_alarm(sig, frame):
+    raise _Budget()
+
+
+TASK_BUDGET_S = {'quick': int(os.environ.get('VERIF_TASK_BUDGET', '900')), 'thorough': int(os.environ.get('VERIF_TASK_BUDGET', '7200'))}
+
+
 def run_task(args):
     obname, params, tier, prop = args
     t0 = time.time()
+    import signal
+    signal.signal(signal.SIGALRM, _on_alarm)
+    signal.alarm(TASK_BUDGET_S.get(tier, 900))
     out = dict(obligation=obname, params=params, paths=0, queries=0, solver_s=0.0, nontrivial=0,
                decided=0, violations=[], known=[], spurious=[], inconclusive=None, samples=[],
                functions={}, wall_s=0.0, clauses=[])
@@ -202,9 +216,12 @@ def run_task(args):
         out['clauses'] = sorted(clause_names)
     except Inconclusive as e:
         out['inconclusive'] = str(e)
+    except _Budget:
+        out['inconclusive'] = 'task time budget (%ds) exhausted after %d paths' % (TASK_BUDGET_S.get(tier, 900), out['paths'])
     except Exception:
         out['inconclusive'] = 'harness error: ' + traceback.format_exc()
     finally:
+        signal.alarm(0)
         sys.setprofile(None)
     out['wall_s'] = round(time.time() - t0, 3)
     return out
@@ -392,4 +409,12 @@ def main(argv=None):
 
 
 if __name__ == '__main__':
-    sys.exit(main())
+    try:
+        rc = main()
+    except SystemExit:
+        raise
+    except BaseException:
+        traceback.print_exc()
+        print('INCONCLUSIVE: the harness itself failed (see traceback); no verdict')
+        rc = 2
+    sys.exit(rc)
